@@ -31,12 +31,28 @@ def env():
     from weasyprint.css.properties import INITIAL_VALUES
     from weasyprint.formatting_structure import boxes
     docs.quiet()
-    document = docs.render('<style>body{font-family:weasyprint;font-size:10px}</style><p>abc def</p>')
-    box = next(b for b in document.pages[0]._page_box.descendants() if isinstance(b, boxes.TextBox))
+    # the style comes from the box tree *before* layout, so that a layout that raises cannot take the harness down
+    box = _first_text_box('<style>body{font-family:weasyprint;font-size:10px}</style><p>abc def</p>')
     base = Style({key: box.style[key] for key in INITIAL_VALUES})
     base.cache = box.style.cache
     _, _, font_config = docs._env()
     return base, Ctx(font_config)
+
+
+def _first_text_box(html_string):
+    from weasyprint import DEFAULT_OPTIONS
+    from weasyprint.css.counters import CounterStyle
+    from weasyprint.document import Document
+    from weasyprint.formatting_structure import boxes
+    from weasyprint.formatting_structure.build import build_formatting_structure
+    html = docs.html(html_string)
+    _, _, font_config = docs._env()
+    counter_style = CounterStyle()
+    context = Document._build_layout_context(html, font_config, counter_style, DEFAULT_OPTIONS.copy())
+    root_box = build_formatting_structure(
+        html.etree_element, context.style_for, context.get_image_from_uri, html.base_url,
+        context.target_collector, counter_style, context.footnotes)
+    return next(b for b in root_box.descendants() if isinstance(b, boxes.TextBox))
 
 
 def make_style(**values):
@@ -52,7 +68,7 @@ def context():
     return env()[1]
 
 
-def pipeline(html_string):
+def pipeline(html_string, layout=True):
     """Run the steps of `Document._render` keeping the box tree as it is before layout.
 
     -> (root_box before layout, list of laid-out page boxes)
@@ -71,6 +87,8 @@ def pipeline(html_string):
         html.etree_element, context.style_for, context.get_image_from_uri, html.base_url,
         context.target_collector, counter_style, context.footnotes)
     before = snapshot_paragraphs(root_box)
+    if not layout:
+        return before, None
     page_boxes = list(layout_document(html, root_box, context))
     return before, page_boxes
 
@@ -130,7 +148,7 @@ def frag_wire(box, enc, snap):
             [frag_wire(child, enc, snap) for child in box.children]]
 
 
-def pipeline_trees(html_string, enc):
+def pipeline_trees(html_string, enc, layout=True):
     """Like `pipeline`, but per `<p>`: the children of its line box before layout as model nodes."""
     from weasyprint import DEFAULT_OPTIONS
     from weasyprint.css.counters import CounterStyle
@@ -153,5 +171,78 @@ def pipeline_trees(html_string, enc):
                 before.append(None)
             else:
                 before.append([node_wire(c, enc) for c in lines[0].children])
+    if not layout:
+        return before, None
     page_boxes = list(layout_document(html, root_box, context))
     return before, page_boxes
+
+
+@functools.lru_cache(maxsize=None)
+def text_metrics(font_size):
+    """Pango (assumed component): (height, baseline) of a line of text of the test font at this size."""
+    from fractions import Fraction
+    from weasyprint.css.computed_values import strut_layout
+    if not font_size:
+        return Fraction(0), Fraction(0)
+    height, baseline = strut_layout(make_style(font_size=float(font_size), line_height='normal'), context())
+    return Fraction(height), Fraction(baseline)
+
+
+def vstyle_wire(box, is_text=False):
+    """(fs lh va border-top padding-top padding-bottom border-bottom textHeight textBaseline ex) of a laid-out box."""
+    from fractions import Fraction
+    from weasyprint.css.computed_values import character_ratio
+    style = box.style
+    font_size = Fraction(style['font_size'])
+    line_height = style['line_height']
+    lh = 'normal' if line_height == 'normal' else [
+        'num' if line_height[0] == 'NUMBER' else 'px', Fraction(line_height[1])]
+    vertical_align = style['vertical_align']
+    va = vertical_align if isinstance(vertical_align, str) else ['len', Fraction(vertical_align)]
+    height, baseline = text_metrics(font_size)
+    if is_text:
+        edges = [Fraction(0)] * 4
+    else:
+        edges = [Fraction(box.border_top_width), Fraction(box.padding_top), Fraction(box.padding_bottom),
+                 Fraction(box.border_bottom_width)]
+    return [font_size, lh, va, *edges, height, baseline, Fraction(character_ratio(style, 'x'))]
+
+
+def vnode_wire(box):
+    from weasyprint.formatting_structure import boxes
+    if isinstance(box, boxes.TextBox):
+        return ['t', vstyle_wire(box, True)]
+    return ['b', vstyle_wire(box), [vnode_wire(child) for child in box.children]]
+
+
+def vbox_wire(box, snap):
+    from weasyprint.formatting_structure import boxes
+    values = [snap(box.position_y), snap(box.height), snap(box.margin_top), snap(box.margin_bottom), snap(box.baseline)]
+    if isinstance(box, boxes.TextBox):
+        return ['t', *values]
+    return ['b', *values, [vbox_wire(child, snap) for child in box.children]]
+
+
+def pipeline_lineboxes(html_string, enc):
+    """Build (no layout): -> (real LayoutContext, [(line box of each <p>, its children as model nodes)])."""
+    from weasyprint import DEFAULT_OPTIONS
+    from weasyprint.css.counters import CounterStyle
+    from weasyprint.document import Document
+    from weasyprint.formatting_structure import boxes
+    from weasyprint.formatting_structure.build import build_formatting_structure
+    html = docs.html(html_string)
+    _, _, font_config = docs._env()
+    counter_style = CounterStyle()
+    context = Document._build_layout_context(html, font_config, counter_style, DEFAULT_OPTIONS.copy())
+    root_box = build_formatting_structure(
+        html.etree_element, context.style_for, context.get_image_from_uri, html.base_url,
+        context.target_collector, counter_style, context.footnotes)
+    out = []
+    for box in root_box.descendants():
+        if isinstance(box, boxes.BlockBox) and box.element_tag == 'p':
+            lines = [c for c in box.children if isinstance(c, boxes.LineBox)]
+            if len(lines) == 1 and len(box.children) == 1:
+                out.append((lines[0], [node_wire(c, enc) for c in lines[0].children]))
+            else:
+                out.append((None, None))
+    return context, out
